@@ -15,6 +15,8 @@ type StageSpec struct {
 	Cond   string     `json:"cond,omitempty"` // "", "true", "false", "missing"
 	Nested *GraphSpec `json:"nested,omitempty"`
 	Task   string     `json:"task,omitempty"` // INTEG: name of the task this stage runs (default: the stage's own name)
+	// Interactive: the stage's task is declared interactive (SCHED: a flag on the stub's task)
+	Interactive bool `json:"interactive,omitempty"`
 	// Real: the name the stage carries in the pipeline handed to taskctl (default: Name). Names
 	// are unique per pipeline only: a nested pipeline may well reuse the stage names of the
 	// pipeline that nests it. Name stays unique across the world (oracle bookkeeping).
@@ -144,6 +146,8 @@ type SchedGenParams struct {
 	// (The scheduler re-evaluates the condition of every waiting stage on every pass, by forking
 	// the program; engines that let much simulated time pass would fork thousands of times.)
 	NoTrueCondWithDeps bool
+	// InteractivePct: percent of the stages whose task is interactive (scheduling must not care)
+	InteractivePct int
 }
 
 // GenGraph draws a DAG. Stages get a hidden topological index; edges only go
@@ -190,6 +194,9 @@ func GenGraph(ch *Choices, p SchedGenParams, prefix string, depth int) *GraphSpe
 		s.Fail = ch.Bool(p.FailProb, 100, "fail")
 		if ch.Bool(p.AllowProb, 100, "allow") {
 			s.Allow = true
+		}
+		if p.InteractivePct > 0 && ch.Bool(p.InteractivePct, 100, "interactive") {
+			s.Interactive = true
 		}
 		if ch.Bool(p.CondProb, 100, "has-cond") {
 			if ch.Bool(2, 3, "cond-false") || (p.NoTrueCondWithDeps && len(s.Deps) > 0) {
